@@ -11,15 +11,17 @@ var h04Lists = [][]string{
 	{"uno", "dos", "tres"},
 	{"alpha", "beta", "gamma", "delta", "epsilon"},
 	{"élan", "über", "naïve"},
-	{"x1", "42", "ok"},     // "42" does not change under title-casing
-	{"Apple", "pear"},      // a pre-capitalised word
+	{"x1", "42", "ok"}, // "42" does not change under title-casing
+	{"Apple", "pear"},  // a pre-capitalised word
 	{"a", "bb", "ccc", "dddd", "eeeee", "ffffff", "ggggggg"},
-	{"'tis", "of", "thee"},   // leading punctuation: strings.Title gives 'Tis
-	{"jean-luc", "o'neil"},   // multi-part words: strings.Title capitalises every part
-	{"polish", "one", "Polish", "two"}, // a capitalised twin listed after its lower-case form
-	{"abc", "ÿes", "Ÿes"},              // a twin whose capital sorts after the lower-case letter
-	{"µm", "Μm", "x"},                   // micro sign: its title-cased form is the Greek capital mu
-	{"", "ab"}, // contains the empty word (known finding D6)
+	{"'tis", "of", "thee"},               // leading punctuation: strings.Title gives 'Tis
+	{"jean-luc", "o'neil"},               // multi-part words: strings.Title capitalises every part
+	{"polish", "one", "Polish", "two"},   // a capitalised twin listed after its lower-case form
+	{"abc", "ÿes", "Ÿes"},                // a twin whose capital sorts after the lower-case letter
+	{"µm", "Μm", "x"},                    // micro sign: its title-cased form is the Greek capital mu
+	{"", "ab"},                           // contains the empty word (known finding D6)
+	{"alpha", "bravo", "bravo", "delta"}, // already sorted and all lower case, with a repeated entry
+	{"Polish", "four", "one", "polish"},  // strictly ascending, with a capitalised twin in front
 }
 
 var h04Schemes = []CapScheme{CSNone, CSFirst, CSAll, CSOne, CapScheme("sometimes"), CSRandom}
